@@ -534,6 +534,9 @@ func (k *kase) negotiated() (string, error) {
 }
 
 func (p *prop) Run(line string) core.Outcome {
+	if f := strings.Fields(line); len(f) == 3 && f[0] == "cf" {
+		return p.runCf(f)
+	}
 	k, ok := parseCase(line)
 	if !ok {
 		return core.Outcome{Impl: "bad-op", Tags: []string{"bad-op", "trivial"}}
